@@ -19,7 +19,10 @@ CHECKS = {
                 'payloads) are judged by TLC against Conn.tla via TraceConn.tla; a rejected trace names the clause it breaks. HTTP '
                 'exchanges cover Content-Length, chunked (extensions, trailers), close-delimited, interim 1xx and several responses '
                 'back to back; the tunnel schedules also run through the second relay implementation (BaseTcpTunnelHandler, '
-                'examples/https_connect_tunnel.py) and in threaded mode.',
+                'examples/https_connect_tunnel.py), through proxy chaining (ProxyPoolPlugin) and in threaded mode. Kernel-socket part: '
+                'REAL proxy processes in the three execution modes carry a tunnel with several MiB flowing both ways at once and a '
+                'chunked multi-MiB response to fast and slow clients; TLC (TraceFlush) requires that what one side sent is what the '
+                'other side received.',
         'design_ref': 'DESIGN.md section 6, C01',
         'note': 'Trusted: TLC, SimNet socket semantics (harness/simnet.py) standing in for the kernel, the reduction argument that '
                 'peers act between loop iterations. TLS-wrapped relays are not exercised.',
